@@ -58,6 +58,8 @@ SPEC = dict(
         "IMTL-G / ConFIG / Aligned-MTL / CAGrad only on matrices whose singular values (of J, for ConFIG also of the unit rows) are all "
         ">= 1e-2 or <= 1e-9 relative to the largest; IMTL-G only where |1^T pinv(G) d| max(d) >= 1e-6 and 1e-3 <= s <= 1e3 (C11's finding); "
         "ConFIG points where pinv(unit rows) @ pref = 0 in exact arithmetic are reported apart (zero-direction:ConFIG)",
+        "because the uniform start makes most small integer matrices tie at once (tie-free: 1 of 729 for 2x3, 145 of 729 for 3x2, 43% of 3x3), "
+        "MGDA and CAGrad are additionally run on diag(1, 1.37, 0.61) J for every row-orbit representative J (tie-free: 66% of 3x2, 86% of 3x3)",
         "tolerances 1e-9 * sigma_max(J) * max(1, |weights|_inf); CAGrad 1e-4 (Clarabel stops at a 1e-8 duality gap, the output "
         "direction g_w/|g_w| is determined to about its square root; observed worst 4e-6)",
     ],
@@ -71,6 +73,7 @@ INC5 = [1.0, 2.0, 3.0, 4.0, 5.0]
 CONSTW = [1.0, -2.0, 0.5, 3.0, -0.25]
 LEAK = [0.0, 0.5, 1.0, 0.25, 0.75]
 UVALS = [0.0, 0.25, 0.5, 0.75, 0.999]
+ROWSCALE = [1.0, 1.37, 0.61]
 Ctx, Pred, MGDA_LOOSE = K.Ctx, K.Pred, K.MGDA_LOOSE
 
 
@@ -145,6 +148,8 @@ def gen_cases(tier, seed):
                 cases.append(dict(kind="orbit", m=m, n=n, reps=blk, aggs="fast", ulevel=ul, seed=seed))
             for blk in _blocks(reps, max(1, per // 2)):
                 cases.append(dict(kind="orbit", m=m, n=n, reps=blk, aggs="slow", ulevel=ul, seed=seed))
+                # generic row scaling breaks the symmetric argmin ties of Frank-Wolfe: MGDA on tie-free trajectories
+                cases.append(dict(kind="orbit", m=m, n=n, reps=blk, aggs="slow", ulevel=ul, seed=seed, rowscale=True))
     for i in range(len(A.near_cases())):
         cases.append(dict(kind="near", i=i, aggs="all", ulevel="oa" if thorough else "cyc", seed=seed))
     if thorough:
@@ -255,6 +260,8 @@ def compare(ctx, cfg, pred, J, perm, base, got, moved):
         oracle, sig = "rowperm:MGDA(argmin tie, loose bound)", "rowperm:MGDA-tie"
     else:
         oracle, sig = f"rowperm:{lab}", f"rowperm:{name}"
+        if name == "MGDA":
+            ctx.count("mgda-tight-comparisons")
     if moved and bool(np.any(base[0] != 0)):
         ctx.nontrivial += 1
     ctx.compare(oracle, err, tol, sig, msg)
@@ -268,9 +275,12 @@ def run_orbit(case, ctx):
     keys = [K.cfg_key(c) for c in cfgs]
     kidx = {k: i for i, k in enumerate(keys)}
     nc = len(cfgs)
+    is_mgda = np.array([c["name"] == "MGDA" for c in cfgs])
     maps = {p: np.array([kidx[K.cfg_key(K.permute_rows_cfg(c, p))] for c in cfgs]) for p in perms}
     for rep in case["reps"]:
         J0 = A.ternary_index(m, n, rep)
+        if case.get("rowscale"):
+            J0 = J0 * np.array(ROWSCALE[:m])[:, None]
         members = {}
         for p in perms:
             M = J0[list(p)]
@@ -314,6 +324,7 @@ def run_orbit(case, ctx):
                 np.maximum(maxr, np.where(tight, rr, 0.0), out=maxr)
                 np.maximum(maxl, np.where(loose, rr, 0.0), out=maxl)
                 seen_t |= tight
+                ctx.count("mgda-tight-comparisons", int((tight & is_mgda).sum()))
                 seen_l |= loose
                 bad = (asserted & ~(ratio <= 1.0)) | (ok & (st == 3))
                 for i in np.nonzero(bad)[0]:
